@@ -228,6 +228,13 @@ type sketch struct {
 }
 
 func (k *sketch) add(h uint64) {
+	// finalise (splitmix64) so that the kept values are uniform: the driver estimates the number of
+	// distinct traces from the K smallest values when the sketch is saturated
+	h ^= h >> 30
+	h *= 0xbf58476d1ce4e5b9
+	h ^= h >> 27
+	h *= 0x94d049bb133111eb
+	h ^= h >> 31
 	if k.m == nil {
 		k.m = map[uint64]struct{}{}
 	}
@@ -411,11 +418,16 @@ func workerMain(t *testing.T, p *Prop, tier string) {
 	// blocked where synctest cannot see it, e.g. on a sync.Once's internal mutex) would otherwise hang
 	// the worker. Exit code 5 = stalled (harness trouble, never a violation).
 	var curRun atomic.Int64
+	var loopDone atomic.Bool
+	defer loopDone.Store(true)
 	go func() {
 		limit := time.Duration(envInt("VERIF_STALL_S", 240)) * time.Second
 		last, lastAt := Progress.Load(), time.Now()
 		for {
 			time.Sleep(5 * time.Second)
+			if loopDone.Load() {
+				return // the run loop is over: what remains is process teardown
+			}
 			if p := Progress.Load(); p != last {
 				last, lastAt = p, time.Now()
 				continue
